@@ -347,7 +347,8 @@ def separate_coefficients(expr, int_arithmetic=True, fp_arithmetic=False):
         if is_minus_prefix(child):
             # We recurse here as products that are only there to change the sign
             # should not introduce a layer in the expression tree.
-            value, has_float, component = _process(child.children[1])
+            # Note that the minus prefix may be followed by more than one factor
+            value, has_float, component = _process(strip_minus_prefix(child))
             return -value, has_float, component
         return 1, False, child
 
